@@ -2,8 +2,8 @@
 import os, json, subprocess, time
 from . import build, config, coqside, sx, report
 
-MAX_KEEP = 400          # mismatches kept for analysis (all are counted)
-MAX_ANALYSE = 60
+MAX_KEEP_PER_OP = 40     # mismatches kept for analysis per operation (all are counted)
+MAX_ANALYSE = 25        # analysed per operation
 
 
 def pipeline(ctx, harness_cmd, drv, stdin_data=None):
@@ -23,13 +23,17 @@ def pipeline(ctx, harness_cmd, drv, stdin_data=None):
         except BrokenPipeError:
             pass
     mism, total, summary = [], 0, None
+    per_op = {}
     for raw in p2.stdout:
         line = raw.decode('utf-8', 'replace').rstrip('\n')
         if line.startswith('MISMATCH\t'):
             total += 1
-            if len(mism) < MAX_KEEP:
-                f = line.split('\t')
-                if len(f) >= 7:
+            f = line.split('\t')
+            if len(f) >= 7:
+                # keep a bounded number per operation, so that a flood of one kind does not hide the others
+                k = per_op.get(f[2], 0)
+                if k < MAX_KEEP_PER_OP:
+                    per_op[f[2]] = k + 1
                     mism.append(dict(op=f[2], args=f[3], real=f[4], model=f[5], verdict=f[6]))
         elif line.startswith('SUMMARY\t'):
             summary = json.loads(line.split('\t', 1)[1])
@@ -168,7 +172,14 @@ def analyse(ctx, spec, hbin, drv, mism, extra=()):
     """search the differing cases for a concrete input on which the property fails; report once"""
     suite = spec['suite']
     cands = []
-    for m in mism[:MAX_ANALYSE]:
+    seen_per_op = {}
+    selected = []
+    for m in mism:
+        k = seen_per_op.get(m['op'], 0)
+        if k < MAX_ANALYSE:
+            seen_per_op[m['op']] = k + 1
+            selected.append(m)
+    for m in selected:
         case = dict(m)
         if suite == 'bdd' and m['op'] == 'run':
             small = localise_run(ctx, hbin, drv, m['args'])
